@@ -197,11 +197,24 @@ Q q_strpbrk()
     if (e >= 0) WIT("found");
 #endif
 }
+// wcsstr calls detail::strcmp<wchar_t> at every position whose first character matches, up to the first position where it returns 0:
+// true if one of those calls subtracts two wide characters whose difference overflows int (root cause of C18_wcscmp_diff_overflow)
+static bool strstr_cmp_overflows(CH const* h, CH const* n)
+{
+    for (sz i = 0; h[i] != CH(0); ++i) {
+        if (h[i] != n[0]) continue;
+        sz fd = ref::decide(h + i, n, NOLIMIT);
+        if (ovf(h[i + fd], n[fd])) return true;
+        if (h[i + fd] == n[fd]) break;
+    }
+    return false;
+}
 Q q_strstr()
 {
     CH* h = symz(A); CH* n = symz(B);
     pd e = ref::strstr(h, n);
     VF_KNOWN(C18_strstr_suffix_only, B == 0 || (e != -1 && e != pd(A) - pd(B)));
+    VF_KNOWN(C18_wcscmp_diff_overflow, W && strstr_cmp_overflows(h, n));
     vf_assert(k_strstr(h, n) == e, "strstr offset == C");
     vf_assert(k_strstr_nc(h, n) == e, "strstr (non-const overload) offset == C");
 #if B > 0 && A >= B
